@@ -42,16 +42,22 @@ def convert(raw, sid):
         if base == "compRolling":
             # ControllerRevisions take their labels from spec.template.metadata.labels, which must satisfy the selector
             parent["spec"]["template"] = {"metadata": {"labels": {"app": "x"}}}
-        method = {"compInPlace": "InPlace", "compRecreate": "Recreate", "compRolling": "RollingRecreate"}[base]
+        method = {"compInPlace": "InPlace", "compRecreate": "Recreate", "compRolling": "RollingRecreate", "compFinalize": "InPlace"}[base]
         cfg = {"kind": "composite", "parentRes": "parents", "children": [{"res": "things", "method": method}], "finalize": True}
         hook = {"sync": {"prog": "const", "children": [des("a"), des("b"), des("d")], "status": {"ok": "1"}},
                 "finalize": {"prog": "drain", "status": {"ok": "1"}}}
         key = "ns1/p"
         fix = ["a", "b", "d"]
         marker = ""
+    if base == "compFinalize":
+        # the parent is being deleted: the finalize hook drains the children, then the finalizer goes
+        parent["deleting"] = True
+        parent["fins"] = ["metacontroller.io/compositecontroller-cc"]
+        objs = [parent, kid("d", True, True, "v1", True), kid("e", True, True, "v1", True)]
+        fix = []
     sched = []
     if raw["hook"] != -1:
-        sched.append({"s": "hookfault", "hook": "sync", "code": raw["hook"]})
+        sched.append({"s": "hookfault", "hook": "finalize" if base == "compFinalize" else "sync", "code": raw["hook"]})
     for f in (raw["f1"], raw["f2"]):
         if f["on"]:
             sched.append(fault_step(f))
@@ -67,10 +73,13 @@ def convert(raw, sid):
 
 def drift(scenarios, events):
     """model's error table vs the result of the FIRST (faulty) sync"""
-    first = {}
+    first, anyerr = {}, {}
     for ev in events:
-        if ev.get("ev") == "SyncEnd" and ev["sc"] not in first:
-            first[ev["sc"]] = ev["result"]
+        if ev.get("ev") == "SyncEnd":
+            if ev["sc"] not in first:
+                first[ev["sc"]] = ev["result"]
+            if ev["result"] == "error":
+                anyerr[ev["sc"]] = True
     n, ex = 0, []
     for sc in scenarios:
         if sum(1 for st in sc["sched"] if st.get("s") == "fault") > 1:
@@ -79,6 +88,9 @@ def drift(scenarios, events):
             continue
         want = "error" if sc["expect"]["model"]["expectErr"] else "ok"
         got = first.get(sc["id"])
+        if sc["objs"][0].get("deleting"):
+            # finalizing base: the faulty request belongs to the first or to the second sync
+            got = "error" if anyerr.get(sc["id"]) else "ok"
         if got != want:
             n += 1
             if len(ex) < 5:
